@@ -609,4 +609,153 @@ theorem getF_core (db : Db) (h : WF db) (tn : Py.Str) (tab : Tab) (htab : findTa
         simp only [htab, c2]
         rw [fetchRows_eq, finish_correct db.extraNames columns hok cols c1]
 
+/-! ### the top level: per-model dispatch, fuel -/
+
+/-- the property's answer as a result / exception of the code -/
+def toResult : Spec.Answer → Except Err Result
+  | .rejected => .error .valueError
+  | .tooManyVariables => .error .tooManyVars
+  | .rows items => .ok (.data items)
+  | .perModel per => .ok (.models per)
+
+theorem toResult_answerOne (db : Db) (T : Table) (columns : Py.Str) (kw : List Kw) :
+    toResult (Spec.answerOne Gen.max_sql_values Gen.SQLITE_LIMIT_VARIABLE_NUMBER db T columns kw) = expected db T columns kw := by
+  unfold Spec.answerOne expected
+  cases Spec.get db.extra T columns kw with
+  | none => rfl
+  | some items => by_cases hm : Spec.tooMany Gen.max_sql_values Gen.SQLITE_LIMIT_VARIABLE_NUMBER kw = true <;> simp [hm, toResult]
+
+theorem longCount_le (kw : List Kw) : longCount kw ≤ kw.length := List.length_filter_le _ _
+
+theorem model_key_facts : stripNo modelKey = (false, modelKey) ∧ modelKey ≠ rowIDName ∧
+    modelKey ∈ StdCol.all.map StdCol.pyName := by decide
+
+theorem withModel_ok (db : Db) (kw : List Kw) (hk : KeysOK db kw) (hr : RowIDInts kw) (m : Nat) :
+    KeysOK db (kw ++ [Spec.modelKw m]) ∧ RowIDInts (kw ++ [Spec.modelKw m]) ∧
+    hasModelKey (kw ++ [Spec.modelKw m]) = true ∧ longCount (kw ++ [Spec.modelKw m]) = longCount kw := by
+  obtain ⟨f1, f2, f3⟩ := model_key_facts
+  have hkey : (Spec.modelKw m).key = modelKey := rfl
+  refine ⟨?_, ?_, ?_, ?_⟩
+  · intro x hx
+    rcases List.mem_append.1 hx with hx | hx
+    · exact hk x hx
+    · simp only [List.mem_singleton] at hx; subst hx
+      rw [hkey, f1]
+      simp only [Db.colnames, Tbl.colnames, List.mem_cons, List.mem_append]
+      exact Or.inr (Or.inl f3)
+  · intro x hx
+    rcases List.mem_append.1 hx with hx | hx
+    · exact hr x hx
+    · simp only [List.mem_singleton] at hx; subst hx
+      rw [hkey, f1]; intro h0; exact absurd h0 f2
+  · simp [hasModelKey, hkey]
+  · rw [longCount_split kw (Spec.modelKw m) []]
+    simp [Spec.modelKw, isLong, longCount]
+
+theorem modelKw_eq (m : Nat) : Spec.modelKw m = ({ key := modelKey, arg := .scalar (.int m) } : Kw) := rfl
+
+/-- the per-model loop when every model answers -/
+theorem modelLoop_ok (recGet : List Kw → Except Err Result) (kw : List Kw) (ans : Nat → List Item) :
+    ∀ (ms : List Nat), (∀ m ∈ ms, recGet (kw ++ [Spec.modelKw m]) = .ok (.data (ans m))) →
+      modelLoop recGet kw ms = .ok (ms.map ans)
+  | [], _ => rfl
+  | m :: ms, h => by
+    have h0 := h m (by simp)
+    rw [modelKw_eq] at h0
+    have ih := modelLoop_ok recGet kw ans ms (fun x hx => h x (List.mem_cons_of_mem _ hx))
+    simp only [modelLoop, h0, asData, ih, List.map_cons]
+
+theorem modelLoop_err (recGet : List Kw → Except Err Result) (kw : List Kw) (m : Nat) (ms : List Nat) (e : Err)
+    (h : recGet (kw ++ [Spec.modelKw m]) = .error e) : modelLoop recGet kw (m :: ms) = .error e := by
+  rw [modelKw_eq] at h
+  simp only [modelLoop, h]
+
+/-- **Model.get = the property**, for every list length, on the addressed table of a well-formed database -/
+theorem get_full (db : Db) (h : WF db) (tn : Py.Str) (tab : Tab) (htab : findTab db tn = some tab)
+    (columns : Py.Str) (hok : ColsOK db.extraNames columns = true) (kw : List Kw)
+    (hk : KeysOK db kw) (hr : RowIDInts kw) :
+    Model.get db columns tn kw =
+      toResult (Spec.getOn Gen.max_sql_values Gen.SQLITE_LIMIT_VARIABLE_NUMBER db columns tn kw) := by
+  have htable : db.table? tn = some tab.rows := by rw [findTab_table?, htab]; rfl
+  have hasks : Spec.asksModel kw = hasModelKey kw := rfl
+  unfold Model.get getFuel Spec.getOn
+  rw [htable]
+  by_cases hdisp : (!hasModelKey kw && decide (db.nModel > 0)) = true
+  · -- one answer per model
+    simp only [hasks, hdisp, if_true]
+    obtain ⟨vcols, _⟩ := cols_ok db h columns hok
+    have hcall : ∀ m, getF (kw.length + 2) db columns tn (kw ++ [Spec.modelKw m]) =
+        expected db tab.rows columns (kw ++ [Spec.modelKw m]) := by
+      intro m
+      obtain ⟨w1, w2, w3, w4⟩ := withModel_ok db kw hk hr m
+      exact getF_core db h tn tab htab (longCount kw) columns _ (by omega) hok w1 w2 (Or.inl w3) _
+        (by have := longCount_le kw; omega)
+    show getF (kw.length + 2 + 1) db columns tn kw = _
+    unfold getF
+    simp only [vcols, hdisp, Bool.not_true, Bool.false_eq_true, if_false, if_true]
+    -- the weight, hence the combined-limit verdict, is the same for every model
+    have hw : ∀ m, Spec.tooMany Gen.max_sql_values Gen.SQLITE_LIMIT_VARIABLE_NUMBER (kw ++ [Spec.modelKw m]) =
+        Spec.tooMany Gen.max_sql_values Gen.SQLITE_LIMIT_VARIABLE_NUMBER (kw ++ [Spec.modelKw 0]) := by
+      intro m; simp [Spec.tooMany, Spec.weight, Spec.modelKw, Spec.Arg.count]
+    obtain ⟨cols, c1, _⟩ := (cols_ok db h columns hok).2
+    have hget : ∀ m, ∃ items, Spec.get db.extra tab.rows columns (kw ++ [Spec.modelKw m]) = some items := by
+      intro m
+      obtain ⟨w1, _, _, _⟩ := withModel_ok db kw hk hr m
+      obtain ⟨q, hq⟩ := mapM_condOf_ok db _ w1
+      exact ⟨_, spec_get_eq db tab.rows columns _ cols q c1 hq⟩
+    have hpos : 0 < db.nModel := by
+      simp only [Bool.and_eq_true, decide_eq_true_eq] at hdisp; exact hdisp.2
+    by_cases hmany : Spec.tooMany Gen.max_sql_values Gen.SQLITE_LIMIT_VARIABLE_NUMBER (kw ++ [Spec.modelKw 0]) = true
+    · -- the first model already raises the documented error
+      obtain ⟨n', hn'⟩ : ∃ n', db.nModel = n' + 1 := ⟨db.nModel - 1, by omega⟩
+      have hrange : List.range db.nModel = 0 :: (List.range n').map (· + 1) := by
+        rw [hn', List.range_succ_eq_map]
+      obtain ⟨items0, hi0⟩ := hget 0
+      have e0 : getF (kw.length + 2) db columns tn (kw ++ [Spec.modelKw 0]) = .error .tooManyVars := by
+        rw [hcall 0]; unfold expected; rw [hi0]; simp [hmany]
+      rw [hrange, modelLoop_err _ kw 0 _ _ e0]
+      have hany : ∀ m, Spec.answerOne Gen.max_sql_values Gen.SQLITE_LIMIT_VARIABLE_NUMBER db tab.rows columns
+          (kw ++ [Spec.modelKw m]) = .tooManyVariables := by
+        intro m
+        obtain ⟨items, hi⟩ := hget m
+        unfold Spec.answerOne; rw [hi]; simp [hw m, hmany]
+      have h1 : (List.map (fun m => Spec.answerOne Gen.max_sql_values Gen.SQLITE_LIMIT_VARIABLE_NUMBER db tab.rows columns
+          (kw ++ [Spec.modelKw m])) (0 :: (List.range n').map (· + 1))) =
+          (0 :: (List.range n').map (· + 1)).map (fun _ => Spec.Answer.tooManyVariables) := by
+        apply List.map_congr_left; intro m _; exact hany m
+      rw [h1]
+      simp [toResult]
+    · have hmany' : ∀ m, Spec.tooMany Gen.max_sql_values Gen.SQLITE_LIMIT_VARIABLE_NUMBER (kw ++ [Spec.modelKw m]) = false := by
+        intro m; rw [hw m]; simpa using hmany
+      -- every model answers its rows
+      have hans : ∀ m, ∃ items, Spec.get db.extra tab.rows columns (kw ++ [Spec.modelKw m]) = some items ∧
+          getF (kw.length + 2) db columns tn (kw ++ [Spec.modelKw m]) = .ok (.data items) ∧
+          Spec.answerOne Gen.max_sql_values Gen.SQLITE_LIMIT_VARIABLE_NUMBER db tab.rows columns (kw ++ [Spec.modelKw m]) = .rows items := by
+        intro m
+        obtain ⟨items, hi⟩ := hget m
+        refine ⟨items, hi, ?_, ?_⟩
+        · rw [hcall m]; unfold expected; rw [hi]; simp [hmany' m]
+        · unfold Spec.answerOne; rw [hi]; simp [hmany' m]
+      let ans : Nat → List Item := fun m => (Spec.get db.extra tab.rows columns (kw ++ [Spec.modelKw m])).getD []
+      have hloop := modelLoop_ok (fun kw' => getF (kw.length + 2) db columns tn kw') kw ans (List.range db.nModel) (by
+        intro m _
+        obtain ⟨items, hi, hg, _⟩ := hans m
+        simp only [ans, hi, Option.getD_some]; exact hg)
+      rw [hloop]
+      have h1 : (List.map (fun m => Spec.answerOne Gen.max_sql_values Gen.SQLITE_LIMIT_VARIABLE_NUMBER db tab.rows columns
+          (kw ++ [Spec.modelKw m])) (List.range db.nModel)) = (List.range db.nModel).map (fun m => Spec.Answer.rows (ans m)) := by
+        apply List.map_congr_left; intro m _
+        obtain ⟨items, hi, _, ha⟩ := hans m
+        simp only [ans, hi, Option.getD_some]; exact ha
+      rw [h1]
+      simp [toResult, List.filterMap_map, Function.comp]
+  · have hdisp' : (!hasModelKey kw && decide (db.nModel > 0)) = false := by simpa using hdisp
+    simp only [hasks, hdisp', Bool.false_eq_true, if_false]
+    rw [toResult_answerOne]
+    have hm : hasModelKey kw = true ∨ db.nModel = 0 := by
+      simp only [Bool.and_eq_false_iff, Bool.not_eq_false', decide_eq_false_iff_not, not_lt, Nat.le_zero] at hdisp'
+      exact hdisp'
+    exact getF_core db h tn tab htab (longCount kw) columns kw (Nat.le_refl _) hok hk hr hm _
+      (by have := longCount_le kw; omega)
+
 end TableProofs
